@@ -154,3 +154,12 @@ MUTANTS = [
 ENGINES = ['model', 'dsf', 'terms']
 TECHNIQUE = ('static analysis: integer-count range idiom rule, term normal forms of the time-advance stores, '
              'derived-state freshness dataflow for the per-ray phases')
+
+
+def sweep(overlay):
+    from ..dsf import dsf_sweep
+    from ..selftest import sweep_lines
+    out = dsf_sweep(overlay, JAKES, 'C14')
+    for q in ('JakesSampleGenerator._generate_time_samples', 'JakesSampleGenerator.skip_samples_for_next_generation'):
+        out += sweep_lines(overlay, FG, q, lambda t: t.startswith('self._current_time'), 'C14')
+    return out
